@@ -2,6 +2,7 @@ import GcArena.Proofs.Debt
 import GcArena.Proofs.MarkDebt
 import GcArena.Proofs.Sleep
 import GcArena.Proofs.CycleRun
+import GcArena.Proofs.NotParked
 import GcArena.Proofs.SelfDriven
 import GcArena.Proofs.LegacyLemmas
 /-!
@@ -187,7 +188,10 @@ theorem credits_bounded (n : Nat) (ops : List Op) (ρ : Rat)
     definition, so no bound can follow from "the debt is paid") — then `A' (1 - ρ) < ρ H`.
 
     (`ρ < 1` is not needed for this form; it is for the quotient form `rho_bound_quotient`.  The
-    state may even be asleep: the call then wakes it.) -/
+    state may even be asleep: the call then wakes it.  The hypothesis `total_gcs ≠ 0` — here and in
+    `rho_bound_quotient`, and the alternative `total_gcs = 0` in `cycles_complete` — is needed
+    because the state ranges over histories with *replayed* collection calls; see `rho_bound_run`,
+    `rho_bound_run_literal_false`, and `rho_bound_run_selfdriven` for the form without it.) -/
 theorem rho_bound (n : Nat) (ops : List Op) (ρ : Rat) (Aw H A' : Nat) (fault : TraceFault) (c' : Ctx)
     (halive : ((Arena.new n).run ops).alive = true) (hcb : ((Arena.new n).run ops).cb = none)
     (hp : RhoPacing ((Arena.new n).run ops).ctx.metrics.pacing ρ)
@@ -250,7 +254,15 @@ theorem cycles_complete (n : Nat) (ops : List Op) (ρ : Rat) (Aw H A' : Nat) (fa
     * `A'` := `allocsIn a0 (wakeOp :: post)` — the number of `alloc` operations accepted since —
       and that is exactly the growth of the `allocated` counter (second conclusion);
     and if a `cycle_debt` call made after `post` returns with the cycle unfinished and the arena
-    non-empty, then `A' (1 - ρ) < ρ H`. -/
+    non-empty, then `A' (1 - ρ) < ρ H`.
+
+    Why `total_gcs ≠ 0` is a hypothesis here although the property has none: `post` may contain
+    *replayed* collection calls, and a replay can be cut anywhere — also right after the sweep
+    released the last allocation, in `Sweep` with nothing left to sweep, where the real loop never
+    stops (`never_parked`).  From such a state `cycle_debt` returns at once (an empty arena
+    reports no debt) and no bound follows: `rho_bound_run_literal_false`.  When every collection
+    call of the history is self-driven — what a client of the real collector can do — the
+    hypothesis is derivable: `rho_bound_run_selfdriven`. -/
 theorem rho_bound_run (n : Nat) (pre post : List Op) (m : Method) (k : Cont) (wfault : TraceFault)
     (a0 a2 : Arena) (ha0 : a0 = (Arena.new n).run pre)
     (ha2 : a2 = (Arena.new n).run (pre ++ .collect m k wfault none :: post))
@@ -284,6 +296,141 @@ theorem rho_bound_run (n : Nat) (pre post : List Op) (m : Method) (k : Cont) (wf
   rw [hrun] at hal hcb hsteps hr ⊢
   obtain ⟨r1, r2⟩ := rho_bound_from_sleep h0 hacc0 hs hd _ hk hal hcb new hsteps hz hp hr hns hne
   exact ⟨collect_wakes h0 hcb0 hs hd m hm k wfault, r1, r2⟩
+
+/-- The hypotheses of `rho_bound_run`, bundled: `pre` leads to a sleeping state `a0` with positive
+    debt outside callbacks; the self-driven debt-driven call `.collect m k wfault none` wakes it;
+    `post` keeps the cycle (no `set_pacing`, no negative `adjust_debt`); over wake-and-`post` no
+    `'Z'` is appended (`new`); the final `cycle_debt` call returns normally in `c'`. -/
+structure CycleHistory (n : Nat) (pre post : List Op) (m : Method) (k : Cont) (wfault : TraceFault)
+    (a0 a2 : Arena) (new : List Char) (fault : TraceFault) (c' : Ctx) : Prop where
+  ha0 : a0 = (Arena.new n).run pre
+  ha2 : a2 = (Arena.new n).run (pre ++ .collect m k wfault none :: post)
+  hm : (Arena.methodArgs m).1 = .payDebt
+  hcb0 : a0.cb = none
+  hs : a0.ctx.phase = .sleep
+  hd : 0 < a0.ctx.metrics.allocationDebt
+  hpost : ∀ op, op ∈ post → op.keepsCycle = true
+  hal : a2.alive = true
+  hcb : a2.cb = none
+  hsteps : a2.ctx.steps = new ++ a0.ctx.steps
+  hz : 'Z' ∉ new
+  hr : a2.ctx.doCollection a2.root .payDebt .finishCycle fault = (c', .returned)
+
+private theorem history_core {n pre post m k wfault a0 a2 new fault c'}
+    (H : CycleHistory n pre post m k wfault a0 a2 new fault c') :
+    a2 = a0.run (.collect m k wfault none :: post) ∧ Inv a0 ∧ Acc a0.ctx ∧
+    (∀ op, op ∈ (Op.collect m k wfault none :: post) → op.keepsCycle = true) := by
+  have hrun : a2 = a0.run (.collect m k wfault none :: post) := by
+    rw [H.ha2, H.ha0, run_append]
+  have hal0 : a0.alive = true := by
+    cases hx : a0.alive with
+    | true => rfl
+    | false => have := H.hal; rw [hrun, run_dead hx] at this; rw [hx] at this; cases this
+  refine ⟨hrun, ?_, ?_, ?_⟩
+  · have := H.ha0; subst this; exact inv_run n pre hal0
+  · have := H.ha0; subst this; exact acc_run n pre
+  · intro op hop
+    simp only [List.mem_cons] at hop
+    rcases hop with rfl | hop
+    · rfl
+    · exact H.hpost op hop
+
+/-- What the history determines, whatever the pacing: `allocated` grew by the number of accepted
+    `alloc` operations (`A'`); the allocations the cycle has had to deal with are the `H` held at
+    wake-up plus `A'`; and `H ≠ 0`. -/
+private theorem history_facts {n pre post m k wfault a0 a2 new fault c'}
+    (H : CycleHistory n pre post m k wfault a0 a2 new fault c') {ρ : Rat}
+    (hp : RhoPacing a0.ctx.metrics.pacing ρ) (hns : c'.phase ≠ .sleep) :
+    c'.metrics.totalGcs + c'.metrics.freed
+      = a0.ctx.metrics.totalGcs + allocsIn a0 (.collect m k wfault none :: post) ∧
+    a0.ctx.metrics.totalGcs ≠ 0 ∧
+    (c'.metrics.totalGcs ≠ 0 →
+      ((allocsIn a0 (.collect m k wfault none :: post) : Nat) : Rat) * (1 - ρ)
+        < ρ * (a0.ctx.metrics.totalGcs : Rat)) := by
+  obtain ⟨hrun, h0, hacc0, hk⟩ := history_core H
+  have hal := H.hal; have hcb := H.hcb; have hsteps := H.hsteps; have hr := H.hr
+  rw [hrun] at hal hcb hsteps hr
+  exact (cycle_from_sleep h0 hacc0 H.hs H.hd _ hk hal hcb new hsteps H.hz hp hr hns).2
+
+/-- **ρ-bound over a self-driven history**: as `rho_bound_run`, with every collection call of
+    `post` self-driven (`Op.selfDriven`: no replay) — what a client of the real collector can do —
+    and **without** the hypothesis `total_gcs ≠ 0`: inside one cycle a self-driven call never
+    returns with the arena emptied (`selfdriven_nonempty`, Proofs/NotParked.lean). -/
+theorem rho_bound_run_selfdriven {n pre post m k wfault a0 a2 new fault c'}
+    (H : CycleHistory n pre post m k wfault a0 a2 new fault c')
+    (hself : ∀ op, op ∈ post → op.selfDriven = true)
+    (ρ : Rat) (hp : RhoPacing a0.ctx.metrics.pacing ρ) (hns : c'.phase ≠ .sleep) :
+    ((allocsIn a0 (.collect m k wfault none :: post) : Nat) : Rat) * (1 - ρ)
+      < ρ * (a0.ctx.metrics.totalGcs : Rat) := by
+  obtain ⟨hrun, h0, hacc0, _⟩ := history_core H
+  have hal := H.hal; have hcb := H.hcb; have hsteps := H.hsteps; have hr := H.hr
+  rw [hrun] at hal hcb hsteps hr
+  have hne := selfdriven_nonempty h0 hacc0 H.hcb0 H.hs H.hd m H.hm k wfault post
+    (fun op hop => ⟨hself op hop, H.hpost op hop⟩) hal hcb new hsteps H.hz hr hns
+  exact (history_facts H hp hns).2.2 hne
+
+/-- **The heap stays within a constant factor of its size at wake-up.**  Over a history as in
+    `rho_bound_run` (any `post`, replays included) with `ρ < 1`: while the cycle is unfinished
+    after a `cycle_debt` call, the arena holds fewer than `H / (1 - ρ)` allocations, `H` the number
+    of allocations held when the cycle woke. -/
+theorem heap_factor_run {n pre post m k wfault a0 a2 new fault c'}
+    (H : CycleHistory n pre post m k wfault a0 a2 new fault c')
+    (ρ : Rat) (hp : RhoPacing a0.ctx.metrics.pacing ρ) (hρ : ρ < 1) (hns : c'.phase ≠ .sleep) :
+    (c'.metrics.totalGcs : Rat) < (a0.ctx.metrics.totalGcs : Rat) / (1 - ρ) := by
+  obtain ⟨hsum, hH0, hbound⟩ := history_facts H hp hns
+  rw [Rat.lt_div_iff (by grind)]
+  have hHpos : (0 : Rat) < (a0.ctx.metrics.totalGcs : Rat) :=
+    Rat.natCast_pos.mpr (Nat.pos_of_ne_zero hH0)
+  by_cases hz : c'.metrics.totalGcs = 0
+  · rw [hz]
+    have : ((0 : Nat) : Rat) = 0 := rfl
+    rw [this, Rat.zero_mul]; exact hHpos
+  · have hb := hbound hz
+    have hle : (c'.metrics.totalGcs : Rat) ≤ (a0.ctx.metrics.totalGcs : Rat)
+        + ((allocsIn a0 (.collect m k wfault none :: post) : Nat) : Rat) := by
+      have : c'.metrics.totalGcs ≤ a0.ctx.metrics.totalGcs
+          + allocsIn a0 (.collect m k wfault none :: post) := by omega
+      exact_mod_cast this
+    have hmul := Rat.mul_le_mul_of_nonneg_right hle (show (0 : Rat) ≤ 1 - ρ by grind)
+    rw [Rat.add_mul] at hmul
+    grind
+
+/-- **So cycles complete**, over a history: once the allocations made since the cycle woke reach
+    `ρ H ≤ A' (1 - ρ)`, a `cycle_debt` call returns Sleeping (the cycle finished) — or, when `post`
+    contains a replayed call cut in the corner described at `rho_bound_run`, with an empty arena. -/
+theorem cycles_complete_run {n pre post m k wfault a0 a2 new fault c'}
+    (H : CycleHistory n pre post m k wfault a0 a2 new fault c')
+    (ρ : Rat) (hp : RhoPacing a0.ctx.metrics.pacing ρ)
+    (hmany : ρ * (a0.ctx.metrics.totalGcs : Rat)
+      ≤ ((allocsIn a0 (.collect m k wfault none :: post) : Nat) : Rat) * (1 - ρ)) :
+    c'.phase = .sleep ∨ c'.metrics.totalGcs = 0 := by
+  by_cases hs : c'.phase = .sleep
+  · exact Or.inl hs
+  · by_cases hz : c'.metrics.totalGcs = 0
+    · exact Or.inr hz
+    · exact absurd ((history_facts H hp hs).2.2 hz) (Rat.not_lt.mpr hmany)
+
+/-- … and over a self-driven history it returns Sleeping, without exception. -/
+theorem cycles_complete_run_selfdriven {n pre post m k wfault a0 a2 new fault c'}
+    (H : CycleHistory n pre post m k wfault a0 a2 new fault c')
+    (hself : ∀ op, op ∈ post → op.selfDriven = true)
+    (ρ : Rat) (hp : RhoPacing a0.ctx.metrics.pacing ρ)
+    (hmany : ρ * (a0.ctx.metrics.totalGcs : Rat)
+      ≤ ((allocsIn a0 (.collect m k wfault none :: post) : Nat) : Rat) * (1 - ρ)) :
+    c'.phase = .sleep := by
+  apply Classical.byContradiction
+  intro hs
+  exact absurd (rho_bound_run_selfdriven H hself ρ hp hs) (Rat.not_lt.mpr hmany)
+
+/-- The clause of `rho_bound_run` **without** `total_gcs ≠ 0`, for arbitrary `post` (replayed calls
+    included).  False: `rho_bound_run_literal_false`. -/
+def rho_bound_run_literal : Prop :=
+  ∀ (n : Nat) (pre post : List Op) (m : Method) (k : Cont) (wfault : TraceFault) (a0 a2 : Arena)
+    (new : List Char) (fault : TraceFault) (c' : Ctx) (ρ : Rat),
+    CycleHistory n pre post m k wfault a0 a2 new fault c' → RhoPacing a0.ctx.metrics.pacing ρ →
+    c'.phase ≠ .sleep →
+    ((allocsIn a0 (.collect m k wfault none :: post) : Nat) : Rat) * (1 - ρ)
+      < ρ * (a0.ctx.metrics.totalGcs : Rat)
 
 /-! ### Sleep is honoured -/
 
@@ -486,6 +633,74 @@ example : ∃ (new : List Char) (c' : Ctx),
   · simp [Ctx.doCollection, hnd]
   · rw [rhoRun_eq]; decide
   · rw [rhoRun_eq]; decide
+
+/-! The corner that makes `total_gcs ≠ 0` necessary for arbitrary `post`: one allocation held at
+    wake-up (`H = 1`), two more made while marking (`A' = 2`), and a **replayed** sweep cut right
+    after it released all three — `Sweep`, nothing left to sweep, arena empty. -/
+
+def litPre : List Op := [ .setPacing halfPacing, .enter .mutate, .alloc true [none], .leave ]
+
+def litPost : List Op := [
+  .enter .mutate, .alloc true [none], .alloc true [none], .leave,
+  .collect .cycleDebt .drop none (some [.toSweep, .sweepStep, .sweepStep, .sweepStep]) ]
+
+private theorem litPre_metrics : ((Arena.new 1).run litPre).ctx.metrics =
+    { pacing := halfPacing, totalGcs := 1, wakeup := 0, artificial := 0, allocated := 1,
+      dropped := 0, freed := 0, marked := 0, traced := 0, remembered := 0, underflow := false } := by rfl
+
+private theorem litPre_debt : 0 < ((Arena.new 1).run litPre).ctx.metrics.allocationDebt := by
+  rw [litPre_metrics]
+  unfold Metrics.allocationDebt Metrics.cycleDebits Metrics.cycleCredits halfPacing
+  simp only
+  grind
+
+private theorem litWake_eq :
+    ((Arena.new 1).run litPre).step (.collect .markDebt .drop none none) =
+    ((Arena.new 1).run litPre).step
+      (.collect .markDebt .drop none (some [.wake, .markStep none, .markBreak])) := by
+  have hd : ((Arena.new 1).run litPre).ctx.metrics.hasDebt = true := by
+    simpa [Metrics.hasDebt] using litPre_debt
+  apply step_collect_self_eq_oracle (c := (((((Arena.new 1).run litPre).ctx.switch .mark).markOne
+      ((Arena.new 1).run litPre).root none).1.markOne ((Arena.new 1).run litPre).root none).1) (by decide)
+  · exact doCollection_markDebt_wake (by decide) hd (Prod.ext rfl (by decide)) hd (by decide)
+      (Prod.ext rfl (by decide))
+  · rfl
+
+private theorem litRun_eq :
+    (Arena.new 1).run (litPre ++ .collect .markDebt .drop none none :: litPost) =
+    (Arena.new 1).run (litPre ++ .collect .markDebt .drop none
+      (some [.wake, .markStep none, .markBreak]) :: litPost) := by
+  rw [run_append, run_append]
+  simp only [Arena.run]
+  rw [litWake_eq]
+
+/-- The literal clause is false: on `litPre ++ [mark_debt] ++ litPost` every hypothesis holds with
+    `ρ = 1/2`, the final `cycle_debt` returns Sweeping with the arena emptied, and
+    `A' (1 - ρ) = 1` is not below `ρ H = 1/2`. -/
+theorem rho_bound_run_literal_false : ¬ rho_bound_run_literal := by
+  intro hlit
+  have hallocs : allocsIn ((Arena.new 1).run litPre) (.collect .markDebt .drop none none :: litPost) = 2 := by
+    show (if ((Arena.new 1).run litPre).allocates (.collect .markDebt .drop none none) then 1 else 0)
+      + allocsIn (((Arena.new 1).run litPre).step (.collect .markDebt .drop none none)).1 litPost = 2
+    rw [litWake_eq]
+    decide
+  have hH : CycleHistory 1 litPre litPost .markDebt .drop none ((Arena.new 1).run litPre)
+      ((Arena.new 1).run (litPre ++ .collect .markDebt .drop none none :: litPost))
+      ['x', 'x', 'x', 'S', 'b', 'r', 'W'] none
+      ((Arena.new 1).run (litPre ++ .collect .markDebt .drop none none :: litPost)).ctx := by
+    refine ⟨rfl, rfl, rfl, by decide, by decide, litPre_debt, by decide, ?_, ?_, ?_, by decide, ?_⟩
+    · rw [litRun_eq]; decide
+    · rw [litRun_eq]; decide
+    · rw [litRun_eq]; decide
+    · exact empty_arena_never_collects _ _ _ _ (by rw [litRun_eq]; decide)
+  have hp : RhoPacing ((Arena.new 1).run litPre).ctx.metrics.pacing (1/2) := by
+    rw [litPre_metrics]; constructor <;> (unfold halfPacing; simp only; grind)
+  have := hlit _ _ _ _ _ _ _ _ _ _ _ (1/2) hH hp (by rw [litRun_eq]; decide)
+  rw [hallocs, litPre_metrics] at this
+  have e1 : ((2 : Nat) : Rat) = 2 := rfl
+  have e2 : ((1 : Nat) : Rat) = 1 := rfl
+  simp only [e1, e2] at this
+  grind
 
 /-- `Pacing::DEFAULT` satisfies the hypothesis with `ρ = 0.55`. -/
 example : RhoPacing Pacing.default (55/100) := by
